@@ -54,13 +54,9 @@ Weekday(z) == (z + 6) % 7                                     \* Sunday = 0 ... 
 DayOf(t) == t \div DAY
 SecOfDay(t) == t % DAY
 
-\* The first day of the month `k` months after the month of day z, plus (day of month - 1) days.
-\* (Only ever applied to a first of a month here: month- and year-based boundaries.)
-AddMonthsDay(z, k) ==
-  LET c == Civil(z)
-      mm == (c.y * 12 + (c.m - 1)) + k
-  IN DaysFromCivil(mm \div 12, (mm % 12) + 1, 1) + (c.d - 1)
-AddMonths(t, k) == IF k = 0 THEN t ELSE AddMonthsDay(DayOf(t), k) * DAY + SecOfDay(t)
+\* Months are counted as y * 12 + (m - 1).
+MonthIdx(z) == LET c == Civil(z) IN c.y * 12 + (c.m - 1)
+MonthStart(M) == DaysFromCivil(M \div 12, (M % 12) + 1, 1) * DAY      \* midnight of the first of month M
 
 (***************************************************************************)
 (* Unit boundary at or before t.  Weeks start on Sunday.                   *)
@@ -74,9 +70,8 @@ RoundDown(t, u) ==
     [] u = 6 -> t - (t % 60)
     [] u = 7 -> t
 
-\* j units after a unit boundary b
-AddUnits(b, u, j) == IF u = 1 THEN AddMonths(b, 12 * j)
-                     ELSE IF u = 2 THEN AddMonths(b, j)
+\* j units after a unit boundary b (month- and year-boundaries are starts of a month)
+AddUnits(b, u, j) == IF u <= 2 THEN MonthStart(MonthIdx(DayOf(b)) + (IF u = 1 THEN 12 * j ELSE j))
                      ELSE b + j * UnitSecs[u]
 
 (***************************************************************************)
@@ -168,25 +163,42 @@ Pre(in) ==
 (* The occurrences.                                                        *)
 (***************************************************************************)
 Base(in) == RoundDown(in.start, in.unit)
-PosFrom(b, in, k, i) == LET o == Off(in.slots[i])
-                        IN AddMonths(AddUnits(b, in.unit, k * in.n), o.mo) + o.s
-Pos(in, k, i) == PosFrom(Base(in), in, k, i)
 Cnt(in) == IF in.count > 0 THEN in.count ELSE 0
+InRange(in, t) == t >= in.start + in.sub /\ (in.hasEnd = 0 \/ t <= in.end)    \* t <= end + eps  <=>  t <= end
+
+\* boundary + k intervals + slot.  Month offsets occur with month-/year-based units only (Pre), where
+\* boundary + k intervals + o.mo months is again the start of a month.
+PosAt(b, M0, u, n, k, o) ==
+  IF u <= 2 THEN MonthStart(M0 + k * MonthsIn(u, n) + o.mo) + o.s
+  ELSE b + k * n * UnitSecs[u] + o.s
+Pos(in, k, i) == LET b == Base(in)
+                 IN PosAt(b, IF in.unit <= 2 THEN MonthIdx(DayOf(b)) ELSE 0, in.unit, in.n, k, Off(in.slots[i]))
+
 \* Every interval k >= 1 lies wholly after start, so the first Cnt elements at or after start of the
 \* infinite set { boundary + k * interval + slot : k >= 0 } are among those with k <= Cnt.
-Cand(in) ==
-  LET b == Base(in)
-      offs == [i \in 1..Len(in.slots) |-> Off(in.slots[i])]
-      bk == [k \in 0..Cnt(in) |-> AddUnits(b, in.unit, k * in.n)]
-  IN {AddMonths(bk[k], offs[i].mo) + offs[i].s : k \in 0..Cnt(in), i \in 1..Len(in.slots)}
-InRange(in, t) == t >= in.start + in.sub /\ (in.hasEnd = 0 \/ t <= in.end)    \* t <= end + eps  <=>  t <= end
+\* CandSeq lists them interval by interval, slot by slot.
+CandSeq(in) ==
+  LET L == Len(in.slots)
+      offs == [i \in 1..L |-> Off(in.slots[i])]
+      b == Base(in)
+      M0 == IF in.unit <= 2 THEN MonthIdx(DayOf(b)) ELSE 0
+  IN [j \in 1..((Cnt(in) + 1) * L) |->
+        PosAt(b, M0, in.unit, in.n, (j - 1) \div L, offs[((j - 1) % L) + 1])]
 
 SetMin(S) == CHOOSE m \in S : \A x \in S : m <= x
 RECURSIVE SortedSeq(_)
 SortedSeq(S) == IF S = {} THEN <<>> ELSE LET m == SetMin(S) IN <<m>> \o SortedSeq(S \ {m})
 Take(s, n) == IF Len(s) <= n THEN s ELSE SubSeq(s, 1, n)
+Increasing(s) == \A j \in 1..(Len(s) - 1) : s[j] < s[j + 1]
 
-Occ(in) == Take(SortedSeq({t \in Cand(in) : InRange(in, t)}), Cnt(in))
+\* the definition: the first Cnt elements, in increasing order, of the set of occurrences in range
+OccBySet(in) == LET c == CandSeq(in)
+                IN Take(SortedSeq({c[j] : j \in {q \in 1..Len(c) : InRange(in, c[q])}}), Cnt(in))
+\* the same value, computed without sorting when the listing is already increasing (it always is
+\* under Pre; MC_Schedule checks both facts on the bounded model)
+Occ(in) == LET c == CandSeq(in)
+               Test(t) == InRange(in, t)
+           IN IF Increasing(c) THEN Take(SelectSeq(c, Test), Cnt(in)) ELSE OccBySet(in)
 
 (***************************************************************************)
 (* Admissible observation of one call.  obs = [out : seconds, us : the     *)
@@ -243,6 +255,7 @@ Sane(in) ==
     LET e == Occ(in)
         f == Occ([in EXCEPT !.hasEnd = 0])
     IN /\ Pre(in)
+       /\ Increasing(CandSeq(in)) /\ e = OccBySet(in)
        /\ Clauses(in, [out |-> e, us |-> [j \in 1..Len(e) |-> 0], exc |-> ""]) = {}
        /\ CalendarSane(in.start)
        /\ Base(in) <= in.start /\ in.start < AddUnits(Base(in), in.unit, 1)
